@@ -349,6 +349,11 @@ class C01(Property):
             covered.append(dist < d["radius"])
         em = Emulsion([SphericalDroplet(*gen.as_given([0.0, 0.0, d["z"]], d["radius"], d)) for d in drops])
         res = locate_droplets(em.get_phasefield(grid))
+        if len(drops) >= 1:
+            # the analysis leaves the grid object as it found it: the same emulsion rendered and located once more on the very same
+            # grid object is what is judged below
+            res = locate_droplets(em.get_phasefield(grid))
+            ctx.cls("second-analysis-on-the-same-grid")
         if not ctx.require(len(res) == len(drops), "cyl:count", f"{len(drops)} droplets rendered, {len(res)} located"):
             return
         found = [(np.asarray(r.position, float), float(r.volume)) for r in res]
